@@ -1281,6 +1281,12 @@ func (cs *ConsensusState) enterPrecommit(height uint64, round uint32) {
 
 	// If +2/3 prevoted for proposal block, stage and precommit it
 	if cs.ProposalBlock.HashesTo(blockID.Hash) {
+		// Validate the block: a polka does not make it valid (more than 1/3 of the power may be faulty).
+		if err := cs.blockExec.ValidateBlock(cs.state, cs.ProposalBlock); err != nil {
+			logger.Error("enterPrecommit: +2/3 prevoted an invalid block. Precommitting nil", "err", err)
+			cs.signAddVote(kproto.PrecommitType, cmn.Hash{}, types.PartSetHeader{})
+			return
+		}
 		logger.Info("enterPrecommit: +2/3 prevoted proposal block. Locking", "hash", blockID)
 		cs.LockedRound = round
 		cs.LockedBlock = cs.ProposalBlock
